@@ -266,6 +266,12 @@ func main() {
 	} else {
 		st = runNames(rng.Fork(), *tier, *out, res, map[string]any{"call": "none"})
 	}
+	nTypes, typeDistinct := 0, vh.Distinct{}
+	if replayInput == nil && *only != "designs" {
+		nTypes, typeDistinct = runTypeNames(rng.Fork(), *tier, *out, res)
+	} else {
+		must(os.WriteFile(filepath.Join(*out, "cases_types.txt"), nil, 0o644))
+	}
 	lawFailures := classLaws()
 	res.Extra["class_law_failures"] = lawFailures
 	tNames := time.Since(t0)
@@ -489,10 +495,10 @@ func main() {
 		failCapped(res, f.Signature, f.What, f.Input)
 	}
 
-	res.Evaluations = st.goify + st.camel + st.scope + len(cases)
-	res.Distinct = len(st.distinct) + len(designDistinct)
+	res.Evaluations = st.goify + st.camel + st.scope + nTypes + len(cases)
+	res.Distinct = len(st.distinct) + len(typeDistinct) + len(designDistinct)
 	res.Rule = "names: fixed corpus (every universe identifier, keyword and package name in 6 spellings, every initialism in 9 spellings, boundary strings) + random strings (structured words x separators x casing; ASCII soup; runes of a 180-rune alphabet with caseless / title-case / non-letter-lower runes; raw bytes with invalid UTF-8), each through Goify x {upper,lower} and CamelCase x 4 flag pairs; NameScope: random sequences of 1-24 Unique/HashedUnique/Name calls over 15 names x 6 suffixes x 6 keys; non-trivial = input longer than one rune / sequence longer than two calls, distinct = distinct inputs. designs: witness (one per recorded finding) + covering (hand-written feature products) + designgen.Random(DefaultOptions); distinct = distinct design JSON among designs accepted by RunDSL"
-	res.Extra["names_cases"] = map[string]int{"goify": st.goify, "camelcase": st.camel, "scope_sequences": st.scope}
+	res.Extra["names_cases"] = map[string]int{"goify": st.goify, "camelcase": st.camel, "scope_sequences": st.scope, "type_name_sequences": nTypes}
 	res.Extra["designs"] = map[string]int{"total": len(cases), "accepted": accepted, "built_ok": built}
 	res.Extra["design_cases"] = recs
 	phaseSeconds["names"] = tNames.Seconds()
